@@ -74,7 +74,24 @@ var C18KnownIssues = map[string]bool{
 	"path-link-local-next-hop-dropped":            true,
 }
 
-var c18ServerNotes = map[string]string{}
+var c18ServerNotes = map[string]string{
+	"policy-origin-condition-not-listed": "statement with conditions.origin (AddStatement / AddPolicy accept it, newOriginConditionFromApiStruct): ListStatement never reports it " +
+		"(pkg/server toStatementApi has no code for OriginEq); ListPolicy / ListPolicyAssignment (internal/pkg/table toStatementApi) report the origin of the *set-route-origin action* " +
+		"instead of the condition (switch on s.Actions.BgpActions.SetRouteOrigin), i.e. nothing without such an action and a wrong value with one.",
+	"policy-zero-value-dropped": "conditions.local_pref_eq{0}, conditions.med_eq{0} and actions.local_pref{0} are accepted and silently dropped (new*FromApiStruct return nil for value 0; " +
+		"NewLocalPrefAction(0) returns nil): a statement 'match MED 0' becomes 'match everything', 'set local-pref 0' becomes no action.",
+	"policy-empty-community-action": "actions.community with an empty list (REPLACE with no communities = strip all communities): kept by the policy engine and by ListPolicy, " +
+		"but ListStatement (pkg/server toStatementApi) drops a community action whose list is empty.",
+	"policy-med-mod-zero": "actions.med{type: MOD, value: 0} is stored as MedAction{MOD,0}; MedAction.ToConfig renders it as \"0\" (the sign is only written for value > 0) " +
+		"and every List call reads that back as REPLACE 0: 'add 0 to MED' is listed as 'set MED to 0'.",
+	"policy-as4-plain-number-clamped": "a 4-octet AS written as a plain number in an extended community / route target text (\"soo:100000:5\", rtc_prefix \"65000:100000:5/96\"): " +
+		"bgp.ParseExtendedCommunity parses the AS with ParseUint(s, 10, 16) and ignores the range error, so the value is silently clamped to 65535 (only the asdot form \"1.34464:5\" works).",
+	"policy-list-statement-community-action-type": "actions.ext_community / actions.large_community: ListStatement (pkg/server toStatementApi) converts the option with " +
+		"api.CommunityAction_Type(oc.BgpSetCommunityOptionTypeToIntMap[...]); that map counts ADD=0, REMOVE=1, REPLACE=2 while the API enum is ADD=1, REMOVE=2, REPLACE=3: " +
+		"ADD is listed as UNSPECIFIED, REMOVE as ADD, REPLACE as REMOVE (ListPolicy uses a name switch and is right).",
+	"path-link-local-next-hop-dropped": "AddPath of an IPv6-family route whose MP_REACH_NLRI carries a global and a link-local next hop: apiutil2Path (and api2Path) rebuild MP_REACH_NLRI " +
+		"from mp.Nexthop only, the link-local address is lost (ListPath shows a 16 octet next hop).",
+}
 
 func init() {
 	for _, k := range strings.Split(os.Getenv("VERIF_C18_UNMASK"), ",") {
@@ -1514,4 +1531,200 @@ func drawC18Path(t *rapid.T) c18sCase {
 func TestVerifC18_path(t *testing.T) {
 	verifkit.Run(t, "C18_path", drawC18Path, runC18Path)
 	c18sSurveyReport(t)
+}
+
+// ---------------------------------------------------------------------------
+// minimal reproducers of the known issues
+// ---------------------------------------------------------------------------
+
+// c18ProbeStatement adds one statement (and a policy referring to it) to a fresh server and
+// returns the differences the List calls show.
+func c18ProbeStatement(in, want *api.Statement) ([]c18sFail, *verifkit.Failure) {
+	ctx := context.Background()
+	srv, err := c18sStart()
+	if err != nil {
+		return nil, verifkit.Failf("harness", "StartBgp: %v", err)
+	}
+	defer srv.Stop()
+	var fails []c18sFail
+	if err := srv.AddStatement(ctx, &api.AddStatementRequest{Statement: proto.Clone(in).(*api.Statement)}); err != nil {
+		return nil, verifkit.Failf("statement-rejected", "AddStatement refuses %v: %v", in, err)
+	}
+	check := func(where string, got *api.Statement) {
+		for _, field := range c18StatementDiff(want, got) {
+			fails = append(fails, c18sFail{shapes: c18FieldShapes(where, field, want, got),
+				f: verifkit.Failf("statement-mismatch", "%s differs in %s: added %v, expected %v, listed %v", where, field, in, want, got)})
+		}
+	}
+	_ = srv.ListStatement(ctx, &api.ListStatementRequest{Name: in.Name}, func(a *api.Statement) { check("ListStatement", a) })
+	if err := srv.AddPolicy(ctx, &api.AddPolicyRequest{Policy: &api.Policy{Name: "p", Statements: []*api.Statement{{Name: in.Name}}}, ReferExistingStatements: true}); err != nil {
+		return nil, verifkit.Failf("policy-rejected", "AddPolicy: %v", err)
+	}
+	_ = srv.ListPolicy(ctx, &api.ListPolicyRequest{Name: "p"}, func(p *api.Policy) {
+		for _, a := range p.Statements {
+			check("ListPolicy", a)
+		}
+	})
+	return fails, nil
+}
+
+func c18ProbeRoute(r *c18Route) ([]c18sFail, *verifkit.Failure) {
+	srv, err := c18sStart()
+	if err != nil {
+		return nil, verifkit.Failf("harness", "StartBgp: %v", err)
+	}
+	defer srv.Stop()
+	r.nlriWire, _ = r.nlri.Serialize()
+	f, hard := c18AddRoute(srv, r)
+	if hard != nil {
+		return nil, hard
+	}
+	if f != nil {
+		return []c18sFail{*f}, nil
+	}
+	return c18CheckRoutes(srv, []*c18Route{r}, verifkit.Scratch("C18_path"))
+}
+
+func c18Stmt(c *api.Conditions, a *api.Actions) (in, want *api.Statement) {
+	in = &api.Statement{Name: "st", Conditions: c, Actions: a}
+	want = proto.Clone(in).(*api.Statement)
+	if want.Conditions == nil {
+		want.Conditions = &api.Conditions{}
+	}
+	if want.Actions == nil {
+		want.Actions = &api.Actions{}
+	}
+	return in, want
+}
+
+type c18ServerProbe struct {
+	test string
+	run  func() ([]c18sFail, *verifkit.Failure)
+}
+
+var c18ServerProbes = map[string]c18ServerProbe{
+	"policy-origin-condition-not-listed": {"C18_policy", func() ([]c18sFail, *verifkit.Failure) {
+		return c18ProbeStatement(c18Stmt(&api.Conditions{Origin: api.OriginType_ORIGIN_TYPE_EGP}, &api.Actions{OriginAction: &api.OriginAction{Origin: api.OriginType_ORIGIN_TYPE_IGP}}))
+	}},
+	"policy-zero-value-dropped": {"C18_policy", func() ([]c18sFail, *verifkit.Failure) {
+		return c18ProbeStatement(c18Stmt(&api.Conditions{MedEq: &api.MedEq{Value: 0}}, &api.Actions{LocalPref: &api.LocalPrefAction{Value: 0}}))
+	}},
+	"policy-empty-community-action": {"C18_policy", func() ([]c18sFail, *verifkit.Failure) {
+		return c18ProbeStatement(c18Stmt(nil, &api.Actions{Community: &api.CommunityAction{Type: api.CommunityAction_TYPE_REPLACE}}))
+	}},
+	"policy-med-mod-zero": {"C18_policy", func() ([]c18sFail, *verifkit.Failure) {
+		return c18ProbeStatement(c18Stmt(nil, &api.Actions{Med: &api.MedAction{Type: api.MedAction_TYPE_MOD, Value: 0}}))
+	}},
+	"policy-as4-plain-number-clamped": {"C18_policy", func() ([]c18sFail, *verifkit.Failure) {
+		return c18ProbeStatement(c18Stmt(nil, &api.Actions{ExtCommunity: &api.CommunityAction{Type: api.CommunityAction_TYPE_ADD, Communities: []string{"soo:100000:5"}}}))
+	}},
+	"policy-list-statement-community-action-type": {"C18_policy", func() ([]c18sFail, *verifkit.Failure) {
+		in, want := c18Stmt(nil, &api.Actions{LargeCommunity: &api.CommunityAction{Type: api.CommunityAction_TYPE_REMOVE, Communities: []string{"65000:1:2"}}})
+		want.Actions.LargeCommunity.Communities = []string{"^65000:1:2$"}
+		return c18ProbeStatement(in, want)
+	}},
+	"path-link-local-next-hop-dropped": {"C18_path", func() ([]c18sFail, *verifkit.Failure) {
+		n, _ := bgp.NewIPAddrPrefix(netip.MustParsePrefix("2001:db8:1::/48"))
+		return c18ProbeRoute(&c18Route{fam: bgp.RF_IPv6_UC, nlri: n, viaMP: true, nexthop: netip.MustParseAddr("2001:db8::1"), linkLoc: netip.MustParseAddr("fe80::1"),
+			attrs: []bgp.PathAttributeInterface{bgp.NewPathAttributeOrigin(0)}})
+	}},
+}
+
+// c18RunServerProbe returns the failure of the probe that the shape key explains (nil: the issue does not reproduce).
+func c18RunServerProbe(key string) (f *verifkit.Failure, other []string) {
+	fails, hard := c18ServerProbes[key].run()
+	if hard != nil {
+		return hard, nil
+	}
+	for _, x := range fails {
+		has := false
+		for _, k := range x.shapes {
+			if k == key {
+				has = true
+			}
+		}
+		if has && f == nil {
+			f = x.f
+		} else if !has {
+			other = append(other, x.f.Msg)
+		}
+	}
+	return f, other
+}
+
+func init() {
+	for key, p := range c18ServerProbes {
+		key := key
+		verifkit.RegisterProbe(p.test, key, func(st *verifkit.Stats) *verifkit.Failure {
+			f, _ := c18RunServerProbe(key)
+			if f != nil {
+				f.Sig = key
+			}
+			return f
+		})
+	}
+}
+
+// TestVerifC18ServerProbes keeps C18KnownIssues honest (see TestVerifC18Probes in pkg/apiutil).
+func TestVerifC18ServerProbes(t *testing.T) {
+	if os.Getenv("VERIF_REPLAY") != "" {
+		t.Skip("replay mode")
+	}
+	keys := make([]string, 0, len(C18KnownIssues))
+	for k := range C18KnownIssues {
+		keys = append(keys, k)
+	}
+	sort.Strings(keys)
+	for _, k := range keys {
+		if c18ServerNotes[k] == "" {
+			t.Errorf("known issue %s has no note", k)
+		}
+		if _, ok := c18ServerProbes[k]; !ok {
+			t.Errorf("known issue %s has no minimal reproducer", k)
+			continue
+		}
+		f, other := c18RunServerProbe(k)
+		switch {
+		case f == nil && C18KnownIssues[k]:
+			t.Errorf("known issue %s no longer reproduces: set C18KnownIssues[%q] = false (other differences: %q)", k, k, other)
+		case f == nil:
+			t.Logf("known issue %s: fixed", k)
+		default:
+			t.Logf("known issue %s: sig=%s %s", k, f.Sig, f.Msg)
+		}
+	}
+	for k := range c18ServerProbes {
+		if _, ok := C18KnownIssues[k]; !ok {
+			t.Errorf("probe %s has no C18KnownIssues entry", k)
+		}
+	}
+}
+
+func c18sFuzzCase(data []byte) c18sCase {
+	var c c18sCase
+	for len(data) >= 4 {
+		c.Recipe = append(c.Recipe, uint32(data[0])|uint32(data[1])<<8|uint32(data[2])<<16|uint32(data[3])<<24)
+		data = data[4:]
+	}
+	return c
+}
+
+func FuzzVerifC18_policy(f *testing.F) {
+	f.Add([]byte{})
+	f.Add(bytes.Repeat([]byte{9, 9, 9, 9, 1, 0, 0, 0, 7, 7, 7, 7, 3, 0, 0, 0, 2, 0, 0, 0, 5, 5, 5, 5, 0xff, 0xff, 0xff, 0xff}, 24))
+	f.Fuzz(func(t *testing.T, data []byte) {
+		if fail := runC18Policy(c18sFuzzCase(data), verifkit.Scratch("C18_policy")); fail != nil {
+			t.Fatalf("VERIF-FAIL C18_policy sig=%q: %s", fail.Sig, fail.Msg)
+		}
+	})
+}
+
+func FuzzVerifC18_path(f *testing.F) {
+	f.Add([]byte{})
+	f.Add(bytes.Repeat([]byte{9, 9, 9, 9, 1, 0, 0, 0, 7, 7, 7, 7, 3, 0, 0, 0, 2, 0, 0, 0, 5, 5, 5, 5, 0xff, 0xff, 0xff, 0xff}, 12))
+	f.Fuzz(func(t *testing.T, data []byte) {
+		if fail := runC18Path(c18sFuzzCase(data), verifkit.Scratch("C18_path")); fail != nil {
+			t.Fatalf("VERIF-FAIL C18_path sig=%q: %s", fail.Sig, fail.Msg)
+		}
+	})
 }
